@@ -187,11 +187,11 @@ func (s *Set) SMove(key1, key2 string, item []byte) (bool, error) {
 		return false, errors.New("key2 is not exists")
 	}
 
+	s.SRem(key1, item)
+
 	if _, ok := s.M[key2][string(item)]; !ok {
 		s.SAdd(key2, item)
 	}
-
-	s.SRem(key1, item)
 
 	return true, nil
 }
